@@ -414,27 +414,31 @@ def sim_open(file, mode="r", *args, **kw):
 
 # ---------------------------------------------------------------------------- tempfile shim
 class _NamedTemp:
-    def __init__(self, fd, name):
+    def __init__(self, fd, name, proc=None):
         self._fd = fd
         self.name = name
         self._closed = False
+        self._proc = proc
+        if proc is not None:
+            proc.fds.pop(fd, None)      # owned by this object, closed exactly once
+            proc.files.append(self)
 
-    def close(self):
+    def _dsim_real_close(self):
         if not self._closed:
             self._closed = True
             try:
                 _os.close(self._fd)
             except OSError:
                 pass
-            a = cur_actor()
-            if a is not None:
-                a.proc.fds.pop(self._fd, None)
+
+    def close(self):
+        self._dsim_real_close()
+        if self._proc is not None and self in self._proc.files:
+            self._proc.files.remove(self)
 
     def __del__(self):
         try:
-            if not self._closed:
-                self._closed = True
-                _os.close(self._fd)
+            self.close()
         except Exception:
             pass
 
@@ -478,7 +482,7 @@ class SimTempfile:
             return tempfile.NamedTemporaryFile(mode, buffering, encoding, newline, suffix, prefix, dir,
                                                delete, **kw)
         fd, name = self.mkstemp(suffix, prefix, dir)
-        return _NamedTemp(fd, name)
+        return _NamedTemp(fd, name, a.proc)
 
 
 SIM_TEMPFILE = SimTempfile()
@@ -873,6 +877,14 @@ def install() -> None:
     for m in (storage_backend, integrity, data_operations):
         m.open = sim_open
     file_lock.fcntl = SIM_FCNTL
+    _orig_init = file_lock.FileLock.__init__
+
+    def _fl_init(self, *a, **kw):
+        _orig_init(self, *a, **kw)
+        act = cur_actor()
+        if act is not None:
+            act.proc.flock_objs.append(self)
+    file_lock.FileLock.__init__ = _fl_init
     for m in (metadata_manager, transaction, lock_provider):
         m.threading = SIM_THREADING
     for m in (metadata_manager, snapshot_manager, file_manager, data_structures):
